@@ -4,6 +4,7 @@
 cd "$(dirname "$0")/.."
 for d in seeded/*/; do
   id=$(basename $d); prop=${id%-*}
+  if grep -q '"obsolete": true' $d/meta.json 2>/dev/null; then echo "$id obsolete (see meta.json)"; continue; fi
   out=$(tools/seedrun.sh $d/patch.diff $prop 2>&1 | grep "^== $prop rc=" | head -1 | cut -c1-120)
   echo "$id $out"
 done
